@@ -76,12 +76,17 @@ Proof. exact object_rt_exact. Qed.
 (* ---------------- document level ---------------- *)
 (* [P : prims] now also carries [p_decompress] = Stream::decompress, which decrypt_raw reaches through
    ObjectStream::new on every decrypted stream of Type ObjStm; every theorem holds whatever that function does.
+   [xr : N -> option N] stands for the Compressed entries of Document.reference_table (object number -> container),
+   which decrypt_raw's object-stream pass consults since repo 959d50f and which is not a component of the model's
+   documents; every theorem holds for every [xr].  [doc_decrypt P] = [doc_decrypt_x P (fun _ => None)]: a document
+   built in memory or written by lopdf (whose writer emits no such entries).
 
-   Result of Document::decrypt after Document::encrypt, [plain_doc P st d]: the version, the binary mark and the
+   Result of Document::decrypt after Document::encrypt, [plain_doc P xr st d]: the version, the binary mark and the
    TRAILER of d exactly (Encrypt removed); every object restored -- [norm_objs st]: with Stream::set_content's Length
    entries, i.e. the objects themselves when Length is right (C05_document_objects_exact) --; then decrypt_raw's
-   object-stream pass ([opened_objects]: streams of Type ObjStm are decompressed in place and their members added under
-   the numbers still free -- nothing happens without such streams: C05_opened_objects_plain); the encryption dictionary
+   object-stream pass ([opened_objects]: streams of Type ObjStm are decompressed in place; a member the cross-reference
+   table places in that stream is added unless its id is present, any other member unless its NUMBER is present under
+   whatever generation -- nothing happens without such streams: C05_opened_objects_plain); the encryption dictionary
    object removed; max_id one higher (add_object's increment is not undone).
    Domain: object ids at or below max_id (the invariant add_object relies on; without it encrypt overwrites an object
    with the encryption dictionary), no stale Encrypt entry in the plain trailer, [version_in_domain v]: V1; V2 with
@@ -102,11 +107,11 @@ Theorem C05_document_rt :
     (forall m, length (p_md5 P m) = 16%nat) -> aes_ok P ->
     (forall m, length (p_sha256 P m) = 32%nat) -> (forall m, length (p_sha384 P m) = 48%nat) ->
     (forall m, length (p_sha512 P m) = 64%nat) ->
-  forall d v rnd ivs st d1 pw,
+  forall xr d v rnd ivs st d1 pw,
     version_in_domain v -> max_id_ok d -> dict_get (d_trailer d) K_Encrypt = None ->
     try_from_version P d v rnd = Ok st -> doc_encrypt P st d ivs = DOk d1 tt ->
     right_password P d1 v pw ->
-    exists st', doc_decrypt P d1 pw = DOk (plain_doc P st d) st' /\ st_equiv st st'.
+    exists st', doc_decrypt_x P xr d1 pw = DOk (plain_doc P xr st d) st' /\ st_equiv st st'.
 Proof. exact document_rt. Qed.
 
 (* the laws of the primitives are theorems for the Gallina MD5, AES and SHA-2 the runner executes ... *)
@@ -119,52 +124,62 @@ Proof. exact (conj sha256_length (conj sha384_length sha512_length)). Qed.
 (* ... so for the executable model the round trip holds with no hypothesis on them, whatever Stream::decompress is *)
 Theorem C05_document_rt_concrete :
   forall dec, let P := concrete_with dec in
-  forall d v rnd ivs st d1 pw,
+  forall xr d v rnd ivs st d1 pw,
     version_in_domain v -> max_id_ok d -> dict_get (d_trailer d) K_Encrypt = None ->
     try_from_version P d v rnd = Ok st -> doc_encrypt P st d ivs = DOk d1 tt ->
     right_password P d1 v pw ->
-    exists st', doc_decrypt P d1 pw = DOk (plain_doc P st d) st' /\ st_equiv st st'.
+    exists st', doc_decrypt_x P xr d1 pw = DOk (plain_doc P xr st d) st' /\ st_equiv st st'.
 Proof. exact document_rt_concrete. Qed.
 
 (* the four cases one by one: user / owner password, revisions 2-4 and 5-6 *)
 Theorem C05_document_rt_user_r4 :
   forall P, (forall m, length (p_md5 P m) = 16%nat) -> aes_ok P ->
-  forall d id0 v rnd ivs st d1,
+  forall xr d id0 v rnd ivs st d1,
     file_id_0 d = Ok id0 -> version_ok v -> max_id_ok d -> dict_get (d_trailer d) K_Encrypt = None ->
     try_from_version P d v rnd = Ok st -> doc_encrypt P st d ivs = DOk d1 tt ->
-    exists st', doc_decrypt P d1 (v_user v) = DOk (plain_doc P st d) st' /\ st_equiv st st'.
+    exists st', doc_decrypt_x P xr d1 (v_user v) = DOk (plain_doc P xr st d) st' /\ st_equiv st st'.
 Proof. exact document_rt_user_r4. Qed.
 
 Theorem C05_document_rt_owner_r4 :
   forall P, (forall m, length (p_md5 P m) = 16%nat) -> aes_ok P ->
-  forall d id0 v rnd ivs st d1,
+  forall xr d id0 v rnd ivs st d1,
     file_id_0 d = Ok id0 -> version_ok v -> max_id_ok d -> dict_get (d_trailer d) K_Encrypt = None ->
     try_from_version P d v rnd = Ok st -> doc_encrypt P st d ivs = DOk d1 tt ->
     v_owner v <> [] ->
     pad_pw (v_owner v) = pad_pw (v_user v) \/ authenticate_raw_user_password P d1 (v_owner v) <> Ok tt ->
-    exists st', doc_decrypt P d1 (v_owner v) = DOk (plain_doc P st d) st' /\ st_equiv st st'.
+    exists st', doc_decrypt_x P xr d1 (v_owner v) = DOk (plain_doc P xr st d) st' /\ st_equiv st st'.
 Proof. exact document_rt_owner_r4. Qed.
 
 Theorem C05_document_rt_owner_r6 :
   forall P, aes_ok P ->
     (forall m, length (p_sha256 P m) = 32%nat) -> (forall m, length (p_sha384 P m) = 48%nat) ->
     (forall m, length (p_sha512 P m) = 64%nat) ->
-  forall d v rnd ivs st d1,
+  forall xr d v rnd ivs st d1,
     version_ok6 v -> max_id_ok d -> dict_get (d_trailer d) K_Encrypt = None ->
     try_from_version P d v rnd = Ok st -> doc_encrypt P st d ivs = DOk d1 tt ->
-    exists st', doc_decrypt P d1 (v_owner v) = DOk (plain_doc P st d) st' /\ st_equiv st st'.
+    exists st', doc_decrypt_x P xr d1 (v_owner v) = DOk (plain_doc P xr st d) st' /\ st_equiv st st'.
 Proof. exact document_rt_owner_r6. Qed.
 
 Theorem C05_document_rt_user_r6 :
   forall P, aes_ok P ->
     (forall m, length (p_sha256 P m) = 32%nat) -> (forall m, length (p_sha384 P m) = 48%nat) ->
     (forall m, length (p_sha512 P m) = 64%nat) ->
-  forall d v rnd ivs st d1,
+  forall xr d v rnd ivs st d1,
     version_ok6 v -> max_id_ok d -> dict_get (d_trailer d) K_Encrypt = None ->
     try_from_version P d v rnd = Ok st -> doc_encrypt P st d ivs = DOk d1 tt ->
     trunc_pw (v_user v) = trunc_pw (v_owner v) \/ authenticate_raw_owner_password P d1 (v_user v) <> Ok tt ->
-    exists st', doc_decrypt P d1 (v_user v) = DOk (plain_doc P st d) st' /\ st_equiv st st'.
+    exists st', doc_decrypt_x P xr d1 (v_user v) = DOk (plain_doc P xr st d) st' /\ st_equiv st st'.
 Proof. exact document_rt_user_r6. Qed.
+
+(* "d' = d": with Length entries that are right and object streams expanded (or absent), the plain document of the
+   theorems above IS the original one, max_id apart *)
+Theorem C05_plain_doc_exact :
+  forall P xr st d,
+    max_id_ok d -> Forall (fun io => lengths_ok st (snd io)) (d_objects d) -> expanded P xr (d_objects d) ->
+    plain_doc P xr st d =
+    {| d_version := d_version d; d_binary_mark := d_binary_mark d; d_trailer := d_trailer d;
+       d_objects := d_objects d; d_max_id := (d_max_id d + 1)%N |}.
+Proof. exact plain_doc_exact. Qed.
 
 (* the two ingredients, as DESIGN names them.  decode after encode: PasswordAlgorithm::try_from(&Document) reads the
    dictionary EncryptionState::encode wrote back into the values of the state (V1 / V2 / V4; R5 / V5) ... *)
@@ -191,19 +206,29 @@ Qed.
    authenticates on the encrypted document and key recovery yields the key / filters / EncryptMetadata that
    encrypted it, decrypt_raw returns the plain document. *)
 Theorem C05_document_rt_any_state :
-  forall P st d ivs d1 pw st',
+  forall P xr st d ivs d1 pw st',
     aes_ok P -> max_id_ok d -> dict_get (d_trailer d) K_Encrypt = None ->
     doc_encrypt P st d ivs = DOk d1 tt ->
     authenticate_raw_password P d1 pw = Ok tt ->
     decode P d1 pw = Ok st' -> st_equiv st st' ->
-    doc_decrypt_raw P d1 pw = DOk (plain_doc P st d) st'.
+    doc_decrypt_raw_x P xr d1 pw = DOk (plain_doc P xr st d) st'.
 Proof. exact doc_rt_gen. Qed.
 
 (* without a stream of Type ObjStm (and the number of the encryption dictionary free) the object-stream pass does
    nothing: the objects of [plain_doc] are the restored objects *)
 Theorem C05_opened_objects_plain :
-  forall P m id e, ~ In id (map fst m) -> has_objstm m = false -> opened_objects P m id e = m.
+  forall P xr m id e, ~ In id (map fst m) -> has_objstm m = false -> opened_objects P xr m id e = m.
 Proof. exact opened_objects_none. Qed.
+
+(* the same on a LOADED document, whose object streams the reader has expanded ([expanded P xr m]: every stream of Type
+   ObjStm is one Stream::decompress fails on -- it has no Filter any more --, each member the cross-reference table
+   places in it is in the object map, and of every other member the number is taken): the pass adds nothing.  (Use with m := norm_objs st (d_objects d), which is
+   d_objects d when the Length entries are right.)  In every other case -- a member missing from the map, e.g. deleted
+   after loading, or a hand-built compressed object stream -- [opened_objects] says exactly what decrypt_raw does: the
+   missing members (re)appear, the stream comes back decompressed. *)
+Theorem C05_opened_objects_expanded :
+  forall P xr m id e, ~ In id (map fst m) -> expanded P xr m -> opened_objects P xr m id e = m.
+Proof. exact opened_objects_expanded. Qed.
 
 Theorem C05_document_objects_exact :
   forall st m, Forall (fun io => lengths_ok st (snd io)) m -> norm_objs st m = m.
@@ -212,8 +237,8 @@ Proof. exact norm_objs_id. Qed.
 (* A password that does not authenticate is rejected with that error BEFORE anything is written:
    [DErr] is the outcome "Err, document unchanged". *)
 Theorem C05_reject_leaves_unchanged :
-  forall P d pw e, authenticate_raw_password P d pw = Err e -> doc_decrypt_raw P d pw = DErr e.
-Proof. exact reject_leaves_unchanged. Qed.
+  forall P xr d pw e, authenticate_raw_password P d pw = Err e -> doc_decrypt_raw_x P xr d pw = DErr e.
+Proof. exact reject_leaves_unchanged_x. Qed.
 
 (* The AES written from FIPS 197 (Model/Crypto/AES.v) is invertible: InvCipher (Cipher b) = b for every
    16- or 32-byte key and every 16-byte block (InvSubBytes / InvShiftRows / InvMixColumns / AddRoundKey
@@ -262,17 +287,18 @@ Theorem C05_example_rt_hypotheses :
   end = true.
 Proof. exact (conj ex_versions ex_owner_not_user). Qed.
 
-(* decrypt_raw's object-stream pass on a document holding a stream of Type ObjStm with the members 7 and 5: both are
-   added (ObjectStream::new through Model/ObjStm.v), the stream stays; when the encryption dictionary has the number 7,
-   the member 7 is not added *)
+(* decrypt_raw's object-stream pass on a document holding a stream of Type ObjStm (object 4) with the members 7 and 5,
+   and an object 5 of generation 2.  No Compressed entries: 7 is added (ObjectStream::new through Model/ObjStm.v), 5 is
+   not -- its number is taken --, the stream stays.  The cross-reference table places 5 in container 4: (5, 0) is added
+   beside (5, 2).  The encryption dictionary has the number 7: the member 7 is not added. *)
 Theorem C05_example_objstm :
   has_objstm ex_os = true /\
-  map fst (objstm_pass concrete ex_os) = [(1, 0); (4, 0); (5, 0); (7, 0)]%N /\
-  lookup (objstm_pass concrete ex_os) (7, 0)%N = Some (OStr (bs "hi") false) /\
-  map fst (opened_objects concrete ex_os (7, 0)%N []) = [(1, 0); (4, 0); (5, 0)]%N.
-Proof.
-  destruct ex_objstm_pass as (H1 & H2 & H3). rewrite H2. split; [exact H1|]. split; [reflexivity|]. split; [reflexivity|exact H3].
-Qed.
+  map fst (objstm_pass concrete no_xr ex_os) = [(1, 0); (4, 0); (5, 2); (7, 0)]%N /\
+  lookup (objstm_pass concrete no_xr ex_os) (7, 0)%N = Some (OStr (bs "hi") false) /\
+  map fst (objstm_pass concrete ex_xr ex_os) = [(1, 0); (4, 0); (5, 0); (5, 2); (7, 0)]%N /\
+  lookup (objstm_pass concrete ex_xr ex_os) (5, 0)%N = Some (ODict [(bs "A", OInt 1)]) /\
+  map fst (opened_objects concrete no_xr ex_os (7, 0)%N []) = [(1, 0); (4, 0); (5, 2)]%N.
+Proof. exact ex_objstm_pass. Qed.
 
 Theorem C05_example_pkcs5 :
   pkcs5_pad (bs "0123456789abcdef") = bs "0123456789abcdef" ++ repeat x10 16 /\
@@ -296,11 +322,13 @@ Print Assumptions C05_document_rt_user_r4.
 Print Assumptions C05_document_rt_owner_r4.
 Print Assumptions C05_document_rt_owner_r6.
 Print Assumptions C05_document_rt_user_r6.
+Print Assumptions C05_plain_doc_exact.
 Print Assumptions C05_try_from_encode_r4.
 Print Assumptions C05_try_from_encode_r6.
 Print Assumptions C05_crypt_filters_encode.
 Print Assumptions C05_document_rt_any_state.
 Print Assumptions C05_opened_objects_plain.
+Print Assumptions C05_opened_objects_expanded.
 Print Assumptions C05_document_objects_exact.
 Print Assumptions C05_reject_leaves_unchanged.
 Print Assumptions C05_aes_inverse.
